@@ -167,7 +167,12 @@ def run():
         P = profile(r["target"])
         r["diags"] = A.diag_codes(P, te, q)
         r["uses"], r["unsup"] = A.dialect_report(r["target"], q, extras)
-        r["xdiags"] = A.xdiag_codes(xprofile(r["target"]), P, te, q)
+        xo = A.x_query(P, te, [], q)
+        r["xdiags"] = [A.xdiag_code(o) for o in xo if not A.xobl_ok(xprofile(r["target"]), o)]
+        for o in xo:
+            ck.stat("scopex", "obligations:" + {"XAmbBare": "ambiguity", "XAmbQual": "ambiguity", "XWFrame": "frame", "XGrouped": "grouping", "XGroupedWild": "grouping"}[o[0]])
+        if any(o[0] in ("XGrouped", "XGroupedWild") for o in xo):
+            ck.stat("scopex", "aggregate-select:" + ("strict" if not xprofile(r["target"])["bare_agg"] else "sqlite-profile"))
         judged.append(r)
         ck.count("scope", r["target"] + "|" + r["sql"])
         ck.stat("scope", "verdict:" + ("OK" if not r["diags"] else "Bad"))
@@ -183,6 +188,7 @@ def run():
             if d_[0] in seen_x:          # the first diagnostic of each kind (ambiguity / frame / grouping are independent defects)
                 continue
             seen_x.add(d_[0])
+            ck.stat("scopex", "diag:%s:%s" % ({21: "ambiguous-bare", 22: "ambiguous-qualified", 23: "frame", 24: "ungrouped-column", 25: "ungrouped-star"}.get(d_[0], d_[0]), r["target"]))
             report(r, "scopex", "emitted SQL does not bind: " + A.diag_text(d_, I), {"diag": list(d_), "diag_names": [I.name(x) for x in d_[1:]]})
         for u in r["unsup"][:1]:
             report(r, "dialect", "emitted SQL uses a construct %s does not accept: %s" % (r["target"], A.construct_text(u)), {"construct": list(u)})
@@ -373,6 +379,9 @@ def clauses_stream(ck, info, names, cases):
     reqs = [{"src": src, "target": "sql." + d, "want": [], "msg_prefix": "verif:select_pipeline"} for src in srcs for d in names]
     ans = harness("log", reqs)
     feats = info.get("feats") or {}
+    if "error" in info:
+        ck.coverage["clauses_skipped"] = "translator failed closed: " + info["error"][:200]
+        return
     calls = {}       # canonical key -> (dialect, nsort, distinct, proj, takes, expected, src)
     I = {}           # text -> id
 
